@@ -219,6 +219,12 @@ class StormLibWrapper:
             archive)
         :return:
         """
+        if "\0" in path_to_file_on_disk:
+            # the C side stops reading at the first NUL: it would act on a different
+            # file than the one every check on the Python side was made for
+            raise ValueError(
+                f"embedded null character in path: {path_to_file_on_disk!r}"
+            )
         if platform.system().lower() == "windows":
             return path_to_file_on_disk
         return path_to_file_on_disk.encode(_STORMLIB_STRING_ARG_ENCODING)
